@@ -9,7 +9,10 @@ import (
 // ---- time ---------------------------------------------------------------------------
 //
 // time.Time is kept as its real 3-field struct but with a private encoding:
-// wall = 0, ext = nanoseconds on the engine's clock (BV64, signed), loc = nil.
+// wall = 1 if the value carries a monotonic clock reading (it came from time.Now, possibly
+// through Add/UTC/Local/In) and 0 otherwise (built from numbers, rounded, or decoded from JSON -
+// which is what makes `==` on a Time differ from Equal in real Go), ext = nanoseconds on the
+// engine's clock (BV64, signed), loc = nil.
 // The zero Time (ext == 0) is the Go zero time. time.Now() returns a fresh,
 // non-decreasing value >= 2^60 unless the harness pinned the clock.
 
@@ -17,6 +20,22 @@ const clockBase = uint64(1) << 60
 
 func (e *Engine) mkTime(ns *Term) Value {
 	return &Backing{E: []Value{e.tb.Const(64, 0), ns, Ptr{}}}
+}
+
+// mkTimeLike builds a time with the monotonic flag of src.
+func (e *Engine) mkTimeLike(src Value, ns *Term) Value {
+	var w Value = e.tb.Const(64, 0)
+	switch x := src.(type) {
+	case *Backing:
+		w = x.E[0]
+	case Ptr:
+		w = x.B.E[x.I].(*Backing).E[0]
+	}
+	return &Backing{E: []Value{w, ns, Ptr{}}}
+}
+
+func (e *Engine) mkTimeNow() Value {
+	return &Backing{E: []Value{e.tb.Const(64, 1), e.clockNow(), Ptr{}}}
 }
 
 func (e *Engine) timeNS(v Value) *Term {
@@ -43,7 +62,7 @@ func (e *Engine) clockNow() *Term {
 }
 
 func registerTime(reg func(string, intercept), nop intercept) {
-	reg("time.Now", func(e *Engine, fr *frame, a []Value) Value { return e.mkTime(e.clockNow()) })
+	reg("time.Now", func(e *Engine, fr *frame, a []Value) Value { return e.mkTimeNow() })
 	reg("time.Since", func(e *Engine, fr *frame, a []Value) Value {
 		return e.tb.Bin(OpSub, e.clockNow(), e.timeNS(a[0]))
 	})
@@ -54,7 +73,7 @@ func registerTime(reg func(string, intercept), nop intercept) {
 		return e.tb.Bin(OpSub, e.timeNS(a[0]), e.timeNS(a[1]))
 	})
 	reg("(time.Time).Add", func(e *Engine, fr *frame, a []Value) Value {
-		return e.mkTime(e.tb.Bin(OpAdd, e.timeNS(a[0]), a[1].(*Term)))
+		return e.mkTimeLike(a[0], e.tb.Bin(OpAdd, e.timeNS(a[0]), a[1].(*Term)))
 	})
 	reg("(time.Time).After", func(e *Engine, fr *frame, a []Value) Value {
 		return e.tb.Cmp(OpSlt, e.timeNS(a[1]), e.timeNS(a[0]))
@@ -88,8 +107,11 @@ func registerTime(reg func(string, intercept), nop intercept) {
 	reg("time.UnixMilli", func(e *Engine, fr *frame, a []Value) Value {
 		return e.mkTime(e.tb.Bin(OpMul, a[0].(*Term), e.tb.Const(64, 1000000)))
 	})
-	reg("(time.Time).UTC (time.Time).Local (time.Time).In (time.Time).Round (time.Time).Truncate", func(e *Engine, fr *frame, a []Value) Value {
-		return e.mkTime(e.timeNS(a[0]))
+	reg("(time.Time).UTC (time.Time).Local (time.Time).In", func(e *Engine, fr *frame, a []Value) Value {
+		return e.mkTimeLike(a[0], e.timeNS(a[0]))
+	})
+	reg("(time.Time).Round (time.Time).Truncate", func(e *Engine, fr *frame, a []Value) Value {
+		return e.mkTime(e.timeNS(a[0])) // strips the monotonic reading
 	})
 	reg("(time.Time).Format (time.Time).String", func(e *Engine, fr *frame, a []Value) Value {
 		ns := e.timeNS(a[0])
@@ -371,8 +393,14 @@ func registerJSON(reg func(string, intercept), nop intercept) {
 			}
 			return e.jsonUnmarshalTree(e.blobTree(blob), p, want)
 		}
-		e.store(p, e.deepSnap(snap, 0))
-		return Iface{}
+		if e.cfg.Bounds["json_identity"] != 0 {
+			// bound json_identity=1: Marshal then Unmarshal into the same type is the identity
+			// (cheaper; forgets what the text does not carry - unexported and "-" fields, the
+			// monotonic clock reading of times, nil-ness of empty containers)
+			e.store(p, e.deepSnap(snap, 0))
+			return Iface{}
+		}
+		return e.jsonUnmarshalTree(e.blobTree(blob), p, want)
 	})
 }
 
